@@ -54,10 +54,25 @@ class Hist:
         return canon(d)
 
     def graph_snap(self, g, run=False):
+        # the object seen THROUGH derivations made now: a narrowed copy (select / with_entrypoint) must be the same whenever it is made
+        probes = []
+        for o in list(g.outputs)[:2]:
+            try:
+                ps = g.select(o).inputs
+                probes.append(("select", o, list(ps.required), list(ps.optional), dict(ps.bound)))
+            except Exception as e:  # noqa: BLE001
+                probes.append(("select", o, type(e).__name__))
+        for nn in [n.name for n in g.iter_nodes()][:2]:
+            try:
+                ps = g.with_entrypoint(nn).inputs
+                probes.append(("entry", nn, list(ps.required), list(ps.optional), dict(ps.bound)))
+            except Exception as e:  # noqa: BLE001
+                probes.append(("entry", nn, type(e).__name__))
         sp = g.inputs
         d = {"required": list(sp.required), "optional": list(sp.optional), "entry": {k: list(v) for k, v in sp.entrypoints.items()},
              "bound": dict(sp.bound), "outputs": list(g.outputs), "selected": g.selected, "eps": g.entrypoints_config,
-             "hash": g.definition_hash, "nodes": [(n.name, list(n.inputs), list(n.outputs)) for n in g.iter_nodes()], "name": g.name}
+             "hash": g.definition_hash, "nodes": [(n.name, list(n.inputs), list(n.outputs)) for n in g.iter_nodes()], "name": g.name,
+             "probes": probes}
         if run:
             d["run"] = self.run_graph(g)
         return canon(d)
@@ -345,9 +360,96 @@ def _diff(a, b):
     return {k: (da.get(k), db.get(k)) for k in set(da) | set(db) if da.get(k) != db.get(k)}
 
 
+def nested_binding_part(ctx):
+    """A graph holding a nested graph with its own bindings next to unrelated nodes: whatever is derived from it and thrown away
+    (bind, rejected bind, unbind, select, with_entrypoint, add_nodes, as_node, reading .inputs, a run), the graph seen through a
+    narrowing derivation made AFTERWARDS is what it was before, and what an identically built, never touched twin shows."""
+    import warnings
+    from hypergraph import Graph, SyncRunner
+    from hypergraph.nodes import FunctionNode
+    rng = ctx.rng
+    n = 0
+    for _ in range(ctx.n(40, 400)):
+        depth = rng.choice([1, 1, 2])
+        inner_bind = {"k": rng.randint(1, 9)}
+        if rng.random() < 0.4:
+            inner_bind["m"] = rng.randint(1, 9)
+
+        def build():
+            def scale(x, k, m=1):
+                return ("scale", x, k, m)
+
+            def shift(y):
+                return ("shift", y)
+
+            def tail(a_out, z=0):
+                return ("tail", a_out, z)
+            sub = Graph([FunctionNode(scale, name="scale", output_name="a_out")], name="sub").bind(**inner_bind)
+            w = sub.as_node()
+            for _d in range(depth - 1):
+                w = Graph([w], name=f"wrap{_d}").as_node()
+            nodes = [w, FunctionNode(shift, name="shift", output_name="b_out")]
+            if rng.random() < 0.5:
+                nodes.append(FunctionNode(tail, name="tail", output_name="c_out"))
+            return Graph(nodes)
+        st = rng.getstate()
+        outer = build()
+        rng.setstate(st)
+        twin = build()
+
+        def view(g):
+            out = []
+            for mk in (lambda: g.select("b_out"), lambda: g.with_entrypoint("shift")):
+                try:
+                    sp = mk().inputs
+                    out.append((tuple(sp.required), tuple(sp.optional), tuple(sorted(sp.bound.items()))))
+                except Exception as e:  # noqa: BLE001
+                    out.append(type(e).__name__)
+            return out
+        before = view(outer)
+        ops = []
+        for _j in range(rng.randint(1, 4)):
+            op = rng.choice(["bind", "bad_bind", "unbind", "select", "entry", "inputs", "as_node", "add", "run"])
+            ops.append(op)
+            try:
+                with warnings.catch_warnings():
+                    warnings.simplefilter("ignore")
+                    if op == "bind":
+                        outer.bind(y=0)
+                    elif op == "bad_bind":
+                        outer.bind(not_an_input=1)
+                    elif op == "unbind":
+                        outer.unbind("y")
+                    elif op == "select":
+                        outer.select("a_out")
+                    elif op == "entry":
+                        outer.with_entrypoint("shift")
+                    elif op == "inputs":
+                        _ = outer.inputs
+                    elif op == "as_node":
+                        outer.as_node(name="again")
+                    elif op == "add":
+                        def extra(b_out):
+                            return b_out
+                        outer.add_nodes(FunctionNode(extra, name="extra", output_name="e_out"))
+                    else:
+                        SyncRunner().run(outer, {"x": 1, "y": 2}, error_handling="continue")
+            except Exception:  # noqa: BLE001
+                pass
+            n += 1
+            after = view(outer)
+            if after != before or after != view(twin):
+                ctx.violation("oracle", f"after the discarded derivations {ops} the graph, seen through select('b_out') / with_entrypoint('shift'), "
+                              f"changed from {before} to {after} (never touched twin: {view(twin)})",
+                              case={"inner_bind": inner_bind, "depth": depth, "ops": ops})
+                break
+    return n
+
+
 def run(ctx):
     rng = ctx.rng
     N = Names()
+    n_nested = nested_binding_part(ctx)
     pre = ("Definition GV (h : heap) (l : nat) : gview := nth l (all_gviews h) (mk_gview [] [] None None ([], None, None)).\n"
            "Definition NV (h : heap) (l : nat) : nview := nth l (all_nviews h) (mk_nview 1%positive [] [] ([], []) [] None None).\n")
     batch = CoqBatch("C07", IMPORTS, shard=200, preamble=pre)
@@ -405,7 +507,7 @@ def run(ctx):
         what = {101: "operation results (new object / raised)", 102: "final view of a graph object", 103: "final view of a node object"}[code]
         ctx.violation("correspondence", f"{what}: implementation {real[:300]} vs model {mv[:300]}", case=cases.get(k), expr=mexp)
     ctx.coverage.update(
-        evaluations=n_eval, distinct_nontrivial=len(nontrivial),
+        evaluations=n_eval + n_nested, distinct_nontrivial=len(nontrivial),
         rule="histories of 8-26 (40 thorough) operations over a growing pool of function nodes, graphs and graph nodes: new node / new graph / bind / unbind / "
              "select / with_entrypoint / add_nodes (also with no nodes) / as_node / with_name / with_inputs and with_outputs (single, double, swap, "
              "duplicate-producing, unknown, empty) / map_over / cache-filling reads / runs / invalid calls; every live object re-snapshotted after every "
